@@ -13,7 +13,7 @@
       [model_ok] the LTS under the discipline, run to the end by the round-robin scheduler on the abstract
                  program (line c r := [r]), delivers the same multiset of records (pi(model) = pi(impl)),
                  its schedule passes the no-overlap monitor and it makes one Write per enabled record. *)
-From Coq Require Import List NArith Arith Bool.
+From Coq Require Import List NArith ZArith Arith Bool.
 Import ListNotations.
 From Glb Require Import Model.LoggerConc.
 
@@ -58,3 +58,13 @@ Definition check_case (nthr : nat) (ps : list planned) (ws : list wrote) (overla
      nwrites := length ws |}.
 
 Definition verdict_ok (v : verdict) : bool := spec_ok v && model_ok v.
+
+(** One logging call at level [lv] through a logger whose handler was configured with threshold [th]
+    (arbitrary integers): [writes] Write calls were observed, [eq] = the (single) chunk is the solo line.
+    spec: exactly one whole-line Write iff th <= lv, none otherwise.
+    model: the LTS with the gate [level_enabled th], run on the one-record program, makes the same number of Writes. *)
+Definition check_threshold (th lv : Z) (writes : nat) (eq : bool) : bool * bool :=
+  let spec := if level_enabled th lv then Nat.eqb writes 1 && eq else Nat.eqb writes 0 in
+  let (s, sched) := sched_rr unit Z (fun _ _ => [1%N]) (level_enabled th) (fun _ _ => 0%N) good_flags 20
+                             (init unit Z [[ILog [] lv]]) [] in
+  (spec, finished unit Z s && Nat.eqb (length (dest unit Z s)) writes && Nat.eqb (count_writes 0 sched) writes).
